@@ -17,6 +17,10 @@ pub mod c10;
 pub mod c11;
 pub mod c12;
 pub mod c13;
+pub mod c14;
+pub mod c15;
+pub mod c17;
+pub mod trainc;
 pub mod dictops;
 pub mod common;
 
@@ -116,6 +120,11 @@ pub fn run(id: &str, opts: &Opts) -> Option<Report> {
         "C11" => c11::run(opts),
         "C12" => c12::run(opts),
         "C13" => c13::run(opts),
+        "C14" => c14::run_c14(opts),
+        "C15" => c15::run(opts),
+        "C16" => c14::run_c16(opts),
+        "C17" => c17::run_c17(opts),
+        "C18" => c17::run_c18(opts),
         _ => return None,
     })
 }
@@ -134,6 +143,9 @@ pub fn replay(id: &str, path: &Path) -> Option<i32> {
         "C11" => c11::replay(path),
         "C12" => c12::replay(path),
         "C13" => c13::replay(path),
+        "C14" | "C16" => c14::replay(id, path),
+        "C15" => c15::replay(path),
+        "C17" | "C18" => c17::replay(id, path),
         _ => None,
     }
 }
